@@ -521,3 +521,23 @@ def main(ctx):
     rep.coverage["toy_curves"] = cover
     rep.coverage["real_curves"] = names
     return rep
+
+
+def mixed_cases(ctx):
+    """verification on curves of equal lengths interleaved in one process"""
+    from ecdsa import curves as cv
+    from .c03 import prod_scalars
+    groups = []
+    for names in catalog.same_length_groups():
+        items = []
+        for nm in names:
+            n = int(getattr(cv, nm).order)
+            sc = prod_scalars(n)
+            for (d, k) in ((sc[0], sc[-1]), (sc[-1], sc[1]), (5, 7),
+                           (n - 5, 7)):
+                for kind in ("valid", "der-valid", "strings-valid",
+                             "wrong-key", "s+1", "R-infinity"):
+                    items.append(("real", dict(curve=nm, kind=kind, d=d, k=k,
+                                               digest=b"\x5a" * 20)))
+        groups.append(items)
+    return groups
